@@ -256,6 +256,59 @@ def explore(ctx):
     if meta:
         ctx.sample({"filter": meta[0]["filter"], "kwargs": meta[0]["kwargs"]})
     ifilters(ctx)
+    converted_filters_section(ctx)
+
+
+def converted_filters_section(ctx):
+    """plain filter objects (and lib filter entries) handed to the INTERPOLATABLE pre-processors are turned into their
+    interpolatable forms: the include list / exclude list they were built with still decides which glyphs they touch.
+    Judged against a run without the custom filter: the left-out composite is identical, the other one shows the filter"""
+    from ufo2ft.preProcessor import TTFInterpolatablePreProcessor, OTFInterpolatablePreProcessor
+    from ufo2ft.filters.propagateAnchors import PropagateAnchorsFilter
+    from ufo2ft.filters.flattenComponents import FlattenComponentsFilter
+    from ufo2ft.filters.decomposeComponents import DecomposeComponentsFilter
+    from ufo2ft.filters.decomposeTransformedComponents import DecomposeTransformedComponentsFilter
+    KEY = "com.github.googlei18n.ufo2ft.filters"
+    sq = lambda x, y, d: [[(Fr(x), Fr(y), "line"), (Fr(x + d), Fr(y), "line"), (Fr(x + d), Fr(y + d), "line"), (Fr(x), Fr(y + d), "line")]]
+    one = (Fr(1), Fr(0), Fr(0), Fr(1))
+    FILTERS = [("propagateAnchors", PropagateAnchorsFilter), ("flattenComponents", FlattenComponentsFilter),
+               ("decomposeComponents", DecomposeComponentsFilter), ("decomposeTransformedComponents", DecomposeTransformedComponentsFilter)]
+    for i in range(ctx.budget(16, 32)):
+        fname, cls = FILTERS[i % 4]
+        how = ["exclude", "include"][(i // 4) % 2]
+        via_lib = (i // 8) % 2 == 1
+        lib = ["ufoLib2", "defcon"][i % 2]
+
+        def master(k):
+            d = 15 * k
+            gl = [{"name": "a", "unicodes": [0x61], "width": Fr(500 + d), "contours": sq(50, 0, 300 + d), "components": [],
+                   "anchors": [("top", Fr(250), Fr(520 + d)), ("bottom", Fr(250), Fr(-10))]},
+                  {"name": "diercomb", "unicodes": [0x308], "width": Fr(0), "contours": sq(-60, 550, 40 + d), "components": [],
+                   "anchors": [("_top", Fr(0), Fr(520)), ("top", Fr(0), Fr(700 + d))]},
+                  {"name": "a.stack", "unicodes": [], "width": Fr(500 + d), "contours": [], "anchors": [], "components": [("a", one + (Fr(0), Fr(d)))]}]
+            for nm, cp in (("adieresis", 0xE4), ("odieresis", 0xF6)):
+                gl.append({"name": nm, "unicodes": [cp], "width": Fr(500 + d), "contours": [], "anchors": [],
+                           "components": [("a.stack", one + (Fr(0), Fr(0))), ("diercomb", (Fr(7, 8), Fr(0), Fr(0), Fr(7, 8), Fr(250), Fr(10 + d)))]})
+            entry = {"name": fname, "pre": True, how: ["adieresis"] if how == "exclude" else ["odieresis"]}
+            return {"glyphs": gl, "glyphOrder": [g["name"] for g in gl], "lib": {KEY: [entry]} if via_lib else {}}
+        descs = [master(0), master(2)]
+        plain = [dict(d, lib={}) for d in descs]
+        case = {"filter": fname, "restricted_by": how, "given_as": "lib entry" if via_lib else "filter object", "lib": lib, "font": jsonable(descs[0])}
+        ctx.count(); ctx.klass("converted to interpolatable: %s/%s/%s" % (fname, how, "lib" if via_lib else "object")); ctx.nontriv(("conv", i, ctx.scale))
+        try:
+            PP = [TTFInterpolatablePreProcessor, OTFInterpolatablePreProcessor][(i // 2) % 2]
+            kw = {} if via_lib else {"filters": [..., cls(pre=True, **{how: ["adieresis"] if how == "exclude" else ["odieresis"]})]}
+            with_f = [snap.glyphset_snapshot(g) for g in PP([build_font(d, lib) for d in descs], **kw).process()]
+            without = [snap.glyphset_snapshot(g) for g in PP([build_font(d, lib) for d in plain]).process()]
+        except Exception as e:
+            ctx.spec_failure(case, "raised %s: %s\n%s" % (type(e).__name__, e, traceback.format_exc()[-1000:]))
+            continue
+        for k, (a, b) in enumerate(zip(with_f, without)):
+            if a.get("adieresis") != b.get("adieresis"):
+                ctx.spec_failure(dict(case, master=k), "%s (%s) changed 'adieresis', which it was told to leave alone, in master %d" % (fname, how, k))
+                break
+        if PP is TTFInterpolatablePreProcessor and all(a.get("odieresis") == b.get("odieresis") for a, b in zip(with_f, without)):
+            ctx.spec_failure(case, "%s (%s) did nothing to 'odieresis', which it was asked to process" % (fname, how))
 
 
 def ifilters(ctx):
